@@ -259,7 +259,7 @@ def run_monitor(cmd, timeout, env=None, cwd=None):
     r.secs = time.time() - t0
     out = out.decode("utf-8", "replace")
     err = err.decode("utf-8", "replace")
-    r.stderr_tail = err[-4000:]
+    r.stderr_tail = err if len(err) <= 12000 else err[:8000] + "\n[...]\n" + err[-4000:]
     r.raw_tail = out[-2000:]
     for line in out.splitlines():
         if line.startswith("@VIOL "):
